@@ -11,36 +11,110 @@ inductive Val
   | seq (vs : List Val)
   deriving Repr, Inhabited
 
+section generic
+variable {α : Type}
+
 /-- `l[i]` for a Python sequence: negative indices count from the end, out of range fails -/
-def pyIndex (l : List Val) (i : Int) : Option Val :=
+def pyIndexG (l : List α) (i : Int) : Option α :=
   if 0 ≤ i then l[i.toNat]?
   else if (-i).toNat ≤ l.length then l[l.length - (-i).toNat]?
   else none
 
 /-- `l[lo:hi]` for `0 ≤ lo` and `hi` absent (None) or negative, the only forms emitted -/
-def pySlice (l : List Val) (lo : Nat) (hi : Option Int) : List Val :=
+def pySliceG (l : List α) (lo : Nat) (hi : Option Int) : List α :=
   match hi with
   | none => l.drop lo
   | some h => (l.take (l.length - (-h).toNat)).drop lo
 
 /-- **Reference**: what Python's unpacking gives to each of the `n` targets (the starred one
-    receives a list); `none` = ValueError (wrong number of values). -/
-def pyValues (n : Nat) (star : Option Nat) (vs : List Val) : Option (List Val) :=
+    receives a list, built by `mk`); `none` = ValueError (wrong number of values). -/
+def pyValuesG (mk : List α → α) (n : Nat) (star : Option Nat) (vs : List α) : Option (List α) :=
   match star with
   | none => if vs.length = n then some vs else none
   | some k =>
     if k < n ∧ n - 1 ≤ vs.length then
-      some (vs.take k ++ [Val.seq ((vs.drop k).take (vs.length - (n - 1)))] ++ vs.drop (vs.length - (n - 1 - k)))
+      some (vs.take k ++ [mk ((vs.drop k).take (vs.length - (n - 1)))] ++ vs.drop (vs.length - (n - 1 - k)))
     else none
 
 /-- **Code**: the value expression emitted for target `i` of `n` (`assign_tuple_list`) -/
-def olValue (n : Nat) (star : Option Nat) (vs : List Val) (i : Nat) : Option Val :=
+def olValueG (mk : List α → α) (n : Nat) (star : Option Nat) (vs : List α) (i : Nat) : Option α :=
   match star with
-  | none => pyIndex vs i
+  | none => pyIndexG vs i
   | some k =>
-    if i < k then pyIndex vs i
+    if i < k then pyIndexG vs i
     else if i = k then
-      some (Val.seq (pySlice vs k (if (k : Int) - n + 1 = 0 then none else some ((k : Int) - n + 1))))
-    else pyIndex vs ((i : Int) - n)
+      some (mk (pySliceG vs k (if (k : Int) - n + 1 = 0 then none else some ((k : Int) - n + 1))))
+    else pyIndexG vs ((i : Int) - n)
+
+/-- whenever Python's unpacking succeeds, every target receives from the emitted index / slice
+    expression exactly the value Python gives it (any element type, any list constructor) -/
+theorem unpackG (mk : List α → α) (n : Nat) (star : Option Nat) (vs r : List α)
+    (h : pyValuesG mk n star vs = some r) : ∀ i, i < n → olValueG mk n star vs i = r[i]? := by
+  intro i hi
+  cases star with
+  | none =>
+    simp only [pyValuesG] at h
+    split at h
+    · rename_i hl
+      cases h
+      simp only [olValueG, pyIndexG]
+      have : (0 : Int) ≤ (i : Int) := Int.natCast_nonneg i
+      simp [this]
+    · cases h
+  | some k =>
+    simp only [pyValuesG] at h
+    split at h
+    · rename_i hk
+      obtain ⟨hk1, hk2⟩ := hk
+      cases h
+      simp only [olValueG]
+      by_cases h1 : i < k
+      · -- before the star
+        simp only [h1, ↓reduceIte, pyIndexG]
+        have : (0 : Int) ≤ (i : Int) := Int.natCast_nonneg i
+        have hlen : (List.take k vs).length = k := by simp; omega
+        simp only [this, ↓reduceIte, Int.toNat_natCast, List.append_assoc]
+        rw [List.getElem?_append_left (by omega)]
+        simp [h1]
+      · by_cases h2 : i = k
+        · -- the starred target
+          subst h2
+          have hlen : (List.take i vs).length = i := by simp; omega
+          simp only [Nat.lt_irrefl, ↓reduceIte, List.append_assoc]
+          rw [List.getElem?_append_right (by omega)]
+          simp only [hlen, Nat.sub_self, List.cons_append, List.nil_append, List.getElem?_cons_zero, Option.some.injEq]
+          congr 1
+          by_cases h3 : (i : Int) - n + 1 = 0
+          · have : n - 1 = i := by omega
+            simp only [h3, ↓reduceIte, pySliceG]
+            rw [List.take_of_length_le (by simp; omega)]
+          · simp only [h3, ↓reduceIte, pySliceG]
+            have e : (-((i : Int) - n + 1)).toNat = n - 1 - i := by omega
+            rw [e, List.drop_take]
+            congr 1
+            omega
+        · -- after the star
+          have h3 : k < i := by omega
+          simp only [h1, h2, ↓reduceIte, pyIndexG]
+          have hneg : ¬ (0 : Int) ≤ (i : Int) - n := by omega
+          have e : (-((i : Int) - n)).toNat = n - i := by omega
+          simp only [hneg, ↓reduceIte, e]
+          have hle : n - i ≤ vs.length := by omega
+          simp only [hle, ↓reduceIte, List.append_assoc]
+          have hlen : (List.take k vs).length = k := by simp; omega
+          rw [List.getElem?_append_right (by omega)]
+          simp only [hlen, List.cons_append, List.nil_append]
+          have : i - k = (i - k - 1) + 1 := by omega
+          rw [this, List.getElem?_cons_succ, List.getElem?_drop]
+          congr 1
+          omega
+    · cases h
+
+end generic
+
+abbrev pyIndex (l : List Val) (i : Int) : Option Val := pyIndexG l i
+abbrev pySlice (l : List Val) (lo : Nat) (hi : Option Int) : List Val := pySliceG l lo hi
+abbrev pyValues (n : Nat) (star : Option Nat) (vs : List Val) : Option (List Val) := pyValuesG Val.seq n star vs
+abbrev olValue (n : Nat) (star : Option Nat) (vs : List Val) (i : Nat) : Option Val := olValueG Val.seq n star vs i
 
 end OlVerif
